@@ -245,6 +245,9 @@ impl Property for C07 {
             for (i, val) in vals.iter().enumerate() {
                 let difficulty = (i % 4) as u32;
                 ctx.sub_evals += 1;
+                // the property's domain excludes NaN (block recovery inverts float comparisons): run the instruction stream on the
+                // harness's own machine first and skip valuations on which some operation produces NaN / inf or casts out of range
+                { let mut m = crate::model::machine::Machine::new(val.clone()); let _ = m.run(&spec, &instrs, difficulty, 4, 300_000); if m.wild { ctx.label("wild-valuation"); continue; } }
                 let va = match tx::run_vm(truth, &ra, val, difficulty, 20000) { tx::VmStop::Done(r) => r, tx::VmStop::IterLimit => { ctx.label("vm-iter-limit"); continue; }, tx::VmStop::Panic(m) => return Outcome::Discard(format!("vm-panic(A):{}", m.chars().take(60).collect::<String>())) };
                 let vb = match tx::run_vm(truth, &rb, val, difficulty, 81000) {
                     tx::VmStop::Done(r) => r,
